@@ -422,3 +422,21 @@ def run(ctx, prog, res):
         r7.check(progress is not None, {"fn": "consume_until_next_kind", "early_exit_test": sh[:140], "only_after": progress}, "C04.R7:progress",
                  "consume_until_next_kind compares with the caller's bound (%s) and can give up before anything was consumed: with a negative bound (`approx_bound_interval_size(TimeDelta::days(-2))`) the iterator never advances and `iter_range(..).count()` does not terminate" % sh[:160], lib.where_of(cu7, tt))
     r7.check(n7 >= 1, {"bound_comparisons_in_the_consuming_loop": n7}, "C04.R7:ANCHOR", "ANCHOR: the consuming loop no longer compares with the interval-size bound", lib.where_of(cu7))
+
+    # R9 -------------------------------------------------------------------------------------
+    r9 = res.rule("C04.R9", "machine-checked part of the reviewed `unreachable!` of the interval helpers: the pairing of starts and ends answers `unreachable` when a start meets an earlier end, which the reviewed argument excludes because *every* end before the next start was dropped first - so each `Peekable::next_if` of the date filter's interval helpers is a drain: it sits in a loop that goes on until it answers None (a single call drops one stale end; a day offset beyond a year leaves two)")
+    n9 = 0
+    for fid, f9 in sorted(prog.fns.items()):
+        if not fid.startswith("opening_hours::filter::date_filter::") or f9.from_expansion:
+            continue
+        for bb9, t9 in f9.calls():
+            if not re.search(r"Peekable::<I>::next_if$", flow.call_name(t9) or ""):
+                continue
+            n9 += 1
+            nxt = t9["t"]
+            looping = nxt is not None and bb9 in flow.reachable_blocks(f9, nxt)
+            r9.check(looping, {"fn": fid.split("date_filter::")[-1], "next_if": "drains until None"}, "C04.R9:drain:%s" % fid.split("date_filter::")[-1],
+                     "%s calls next_if once, outside any loop: one stale element is dropped where the pairing that follows assumes all of them were (its `unreachable!()` is reached when two ends precede the next start, e.g. `Jan 1 +400 days-Jan 5`)" % fid.split("date_filter::")[-1], lib.where_of(f9, t9))
+    r9.floor(2)
+    r9.check(n9 >= 2, {"next_if_sites": n9}, "C04.R9:FLOOR", "FLOOR: %d next_if sites in the interval helpers, 2 were confirmed by hand" % n9, None)
+
